@@ -1,5 +1,10 @@
 """C10 registry entry (DESIGN.md section 3, C10)."""
 from ._util import q as _q
+from . import cov as _cov
+
+
+def _post(ctx):
+    _cov.summary(ctx, "mon_c10")
 
 ID = "C10"
 _BIG = ["--maxexp_bool", "62", "--maxexp_other", "40"]
@@ -23,6 +28,7 @@ PROP = {
                     "iostream operators are excluded from allocation-failure injection (libstdc++ turns bad_alloc into badbit)"],
     "floor": _q(20000, 400000),
     "must_count": _q(["oom_injections_fired", "cases_with_empty_or_short_paths"], ["oom_injections_fired", "cases_with_empty_or_short_paths"]),
+    "post": _post,
     "jobs": [
         {"mon": "mon_c10", "cfg": "asan", "cases": _q(40000, 1200000), "args": ["--mode", "hostile"] + _SMALL},
         {"mon": "mon_c10", "cfg": "asan_big", "cases": _q(40000, 1200000), "args": ["--mode", "hostile"] + _BIG, "seed_off": 11},
@@ -32,6 +38,8 @@ PROP = {
          "env": {"ASAN_OPTIONS": "detect_leaks=0"}},
         {"mon": "mon_c10", "cfg": "asan_z", "cases": _q(800, 20000), "args": ["--mode", "oom"] + _SMALL, "seed_off": 55,
          "env": {"ASAN_OPTIONS": "detect_leaks=0"}},
+        {"mon": "mon_c10", "cfg": "cov", "cases": _q(0, 40000), "args": ["--mode", "hostile"] + _BIG, "seed_off": 88, "shards": 4,
+         "env": _cov.env_for("mon_c10")},
         {"mon": "fuzz_c10", "cfg": "fuzz", "cases": _q(160000, 16000000), "seed_off": 77},
         {"mon": "mon_c10", "cfg": "valgrind", "cases": _q(1600, 80000), "args": ["--mode", "hostile", "--time_limit", "900", "--maxexp_bool", "62", "--maxexp_other", "40"],
          "seed_off": 66, "prefix": ["valgrind", "-q", "--error-exitcode=99", "--track-origins=no", "--leak-check=no"]},
